@@ -350,7 +350,7 @@ func (w *world7) judgeCandidate(c *disruption.Candidate, reason v1.DisruptionRea
 
 func run(r *mon.Report, tier string, idx int, rng *rand.Rand) {
 	r.Eval()
-	mode := []string{"empty", "underutilized", "drift", "drift-tgp", "mixed"}[rng.Intn(5)]
+	mode := []string{"empty", "underutilized", "drift", "drift-tgp", "mixed", "drift-late-tgp"}[rng.Intn(6)]
 	cfg := common.DefaultDCfg()
 	opts, optDesc := common.RandomOptions(rng)
 	cfg.Scenario.Options = opts
@@ -373,11 +373,26 @@ func run(r *mon.Report, tier string, idx int, rng *rand.Rand) {
 		cfg.PDeletePod, cfg.PDrift, cfg.PTGP = 0.3, 1.0, 0
 	case "drift-tgp":
 		cfg.PDeletePod, cfg.PDrift, cfg.PTGP = 0.3, 1.0, 1.0
+	case "drift-late-tgp":
+		cfg.PDeletePod, cfg.PDrift, cfg.PTGP = 0.3, 0, 0
 	default:
 		cfg.PDeletePod, cfg.PDrift = 0.6, 0.4
 	}
 	d := common.BuildDisruption(rng, cfg)
 	e := d.Env
+	if mode == "drift-late-tgp" {
+		// the NodePools get a terminationGracePeriod only now: the existing NodeClaims keep none, and the template edit
+		// drifts them (hash). Pod-level blockers must still protect them from Drift.
+		for _, np := range d.Pools {
+			cur := &v1.NodePool{}
+			if e.API.Raw.Get(context.Background(), types.NamespacedName{Name: np.Name}, cur) == nil {
+				cur.Spec.Template.Spec.TerminationGracePeriod = &metav1.Duration{Duration: time.Hour}
+				e.Apply(cur)
+			}
+		}
+		d.RefreshConditions()
+		_ = e.SyncState()
+	}
 	w := &world7{d: d, rng: rng, mode: mode, applied: map[string]string{}, nominatedAt: map[string]time.Time{}, inflight: map[string]bool{}}
 	// blockers, one per node at most
 	e.Clock.Step(6 * time.Minute) // consolidateAfter=5m elapsed for everything that exists now
